@@ -42,6 +42,10 @@ def writes(fn):
                 if k in MOVE_LIKE:
                     continue
                 scls = short(cal.get('cls', ''))
+                if cal.get('ctor') and scls in fn.tu.counter_guard_classes() and args:
+                    # a counter guard of the library (whatever its name): the write is to the counter it reaches from its argument
+                    out.append({'node': n, 'path': fn.tu.guard_counter_path(scls, path(fn, args[0])), 'how': 'guard', 'argnode': args[0]})
+                    continue
                 for p, a in zip(cal['params'], args):
                     if p['pass'] == 'lref':
                         how = 'guard' if (scls == 'CounterGuard' or (cal.get('ctor') and scls in fn.tu.counter_guard_classes())) else 'arg:' + k
